@@ -45,6 +45,12 @@ func (v *ReplaceValidator) Validate(p patch.Patch) error {
 		}
 	}
 
+	for _, key := range allowedKeys {
+		if err := validateEntries(doc[key]); err != nil {
+			return fmt.Errorf("invalid '%s' in replace document: %s", key, err.Error())
+		}
+	}
+
 	if err := validatePublicKeys(doc.PublicKeys()); err != nil {
 		return fmt.Errorf("failed to validate public keys for replace document: %s", err.Error())
 	}
